@@ -12,11 +12,13 @@ from concurrent.futures import ThreadPoolExecutor
 
 V = '/verif'
 args = sys.argv[1:]
-jobs, repo, ids = 6, '/repo', []
+jobs, repo, ids, only, kinds = 6, '/repo', [], None, None
 while args:
     a = args.pop(0)
     if a == '-j': jobs = int(args.pop(0))
     elif a == '-repo': repo = args.pop(0)
+    elif a == '-only': only = args.pop(0).split(',')
+    elif a == '-kinds': kinds = args.pop(0).split(',')
     else: ids.append(a)
 env = dict(os.environ, GOFLAGS='-mod=mod', GOPROXY='off')  # (no GOSUMDB=off: the toolchain switch of the default go needs its checksum)
 for k in ('GOWORK', 'GOSUMDB', 'GOTOOLCHAIN'):
@@ -82,11 +84,11 @@ for pid in ids:
     tasks = []
     for l in open(V + '/mutsweep/results/%s.tsv' % pid):
         f = l.rstrip('\n').split('\t')
-        if f[6] == 'survived':
+        if f[6] == 'survived' and (not only or any(o in f[1] or o in f[5] for o in only)) and (not kinds or f[3] in kinds):
             tasks.append((f[0], f[1], int(f[2]), f[3], f[4], f[5], f[8] if len(f) > 8 else ''))
     with ThreadPoolExecutor(max_workers=jobs) as ex:
         res = list(ex.map(run_one, tasks))
-    with open(V + '/mutsweep/results/%s.tests.tsv' % pid, 'w') as f:
+    with open(V + '/mutsweep/results/%s.tests.tsv' % pid, 'a') as f:
         for r in res:
             f.write('\t'.join(str(x) for x in r) + '\n')
     n = {}
